@@ -282,3 +282,24 @@ theorem MMems.hiddenE_sdPermVis : (M M' : MMems) → M.sdPermVis M' → M'.hidde
     obtain ⟨r', rfl, h2⟩ := h
     simp [MMems.hiddenE, MMems.hiddenE_sdPermVis r r' h2]
 end
+
+/-! ### the relation is reflexive, and permuting inside a clear child is permuting in the parent -/
+
+theorem sdOptPerm_refl (a : Option (List String)) : sdOptPerm a a := by
+  cases a <;> simp [sdOptPerm]
+
+mutual
+theorem MJ.sdPermVis_refl : (T : MJ) → T.sdPermVis T
+  | .leaf _ => rfl
+  | .arr xs => ⟨xs, rfl, MElems.sdPermVis_refl xs⟩
+  | .obj ms sd => ⟨ms, sd, rfl, MMems.sdPermVis_refl ms, sdOptPerm_refl sd⟩
+theorem MElems.sdPermVis_refl : (E : MElems) → E.sdPermVis E
+  | .nil => rfl
+  | .clear x r => ⟨x, r, rfl, MJ.sdPermVis_refl x, MElems.sdPermVis_refl r⟩
+  | .marked g x r => ⟨r, rfl, MElems.sdPermVis_refl r⟩
+  | .decoy g r => ⟨r, rfl, MElems.sdPermVis_refl r⟩
+theorem MMems.sdPermVis_refl : (M : MMems) → M.sdPermVis M
+  | .nil => rfl
+  | .clear k x r => ⟨x, r, rfl, MJ.sdPermVis_refl x, MMems.sdPermVis_refl r⟩
+  | .marked k g x r => ⟨r, rfl, MMems.sdPermVis_refl r⟩
+end
